@@ -936,12 +936,12 @@ class Gen:
             self._prev_branch = tb
         return self.emit("If", [cond], n_out=k, subgraph_free=parent_vis, then_branch=tb, else_branch=eb)
 
-    def g_loop(self, reuse=False):
+    def g_loop(self, reuse=False, plain_for=False):
         vis = self.visible(lambda v: v.dtype in (F32, F64, I64))
         if not vis:
             return
         state = [self.pick(vis) for _ in range(self.pick([1, 1, 2]))]
-        trip_kind = self.pick(["const", "const", "dynamic", "none"])
+        trip_kind = self.pick(["const", "const", "dynamic", "none"]) if not plain_for else self.pick(["const", "const", "dynamic"])
         m = self.pick([0, 1, 2, 3])
         parent_vis = self.outer + [v for v in self.env if isinstance(v.arr, np.ndarray)]
         sub = Gen(self.draw, dict(self.cfg, outer=parent_vis, counter=self.counter, used_names=self.used_names,
@@ -980,7 +980,7 @@ class Gen:
                 v = r[0]
             new_state.append(v)
         # condition out
-        ck = self.pick(["pass", "true", "lt"])
+        ck = self.pick(["pass", "true", "lt"]) if not plain_for else "pass"
         if ck == "pass":
             r = sub.emit("Identity", [cin])
         elif ck == "true":
@@ -1038,7 +1038,10 @@ class Gen:
                 M = r[0]
         else:
             M = None
-        cond0 = self.const_array(np.asarray(self.pick([True, True, False])), how=self.pick(["node", "init"])) if self.chance(7) or M is None else None
+        if plain_for and M is not None:
+            cond0 = None  # `for i in range(M)` without a condition input (the only loop form proto2python can bring back)
+        else:
+            cond0 = self.const_array(np.asarray(self.pick([True, True, False])), how=self.pick(["node", "init"])) if self.chance(7) or M is None else None
         self.dropped += sub.dropped
         self.features.add("Loop")
         self.features |= {f for f in sub.features if f.startswith(("op:", "const:"))}
